@@ -2,7 +2,7 @@
 claim('C17', 'Proof (all image sizes and bounds in [1, 2^20), all actions/interpolations/formats) that the real Util.execute_xform_size, '
       'execute_xforms, execute_xform_box and the size block of VideoReader.thread_reader satisfy the size laws of the statement '
       '(within bounds, never enlarges/shrinks, exact resize, largest-inside, aspect within 1px, independent + bounds, no failing cv2 call) '
-      'and call the documented cv2 primitive per action. Pixel-level flip/rotate involution laws are library facts (trusted).', '6-C17')
+      'and call the documented cv2 primitive per action; over the index maps of cv2.flip / cv2.rotate (assumed per primitive, cross-checked against the real cv2 on every run) each flip is its own inverse and rotcw / rotccw undo each other, for every image size.', '6-C17')
 claim('C16', 'Proof over symbolic metric names, allow-list patterns and values that the real OTelLineageExporter._is_allowed equals the allow predicate of '
       'the statement, that every key export() hands to the lineage backend stems from an allowed metric (none with an empty allow-list), that histograms '
       'have len(counts) == len(buckets)+1 with numeric fields on pad and truncate paths, and that read_allowlist() defaults to the empty set. '
